@@ -26,7 +26,8 @@ Inductive pyval :=
 | PFactory                                       (* the FrameFactory singleton *)
 | PUbxParser (p : parser)                        (* a UbxParser object held in a local (scan()) *)
 | PNmeaParser (n : nparser)                      (* a NmeaParser object held in a local (scan()) *)
-| PObj (attrs : list (string * pyval)).          (* a plain object: its attributes (CfgKeyData) *)
+| PObj (attrs : list (string * pyval))           (* a plain object: its attributes (CfgKeyData, Item) *)
+| PText (b : bytes).                             (* a Python str holding text data, as its UTF-8 encoding (CH fields) *)
 
 Definition cidZ (c : cid) : Z * Z := (Z.of_N (fst c), Z.of_N (snd c)).
 Definition cidN (c : Z * Z) : cid := (Z.to_N (fst c), Z.to_N (snd c)).
@@ -44,6 +45,7 @@ Definition truthy (v : pyval) : bool :=
   | PBytes b => negb (is_nil b)
   | PList l | PTuple l => negb (is_nil l)
   | PCid _ | PFrame _ | PReq _ _ | PCls _ _ | PFactory | PUbxParser _ | PNmeaParser _ | PObj _ => true
+  | PText b => negb (is_nil b)
   end.
 
 (* == on the kinds the code compares: None, bool, int, str, bytes, UbxCID (its __eq__ compares cls and id) *)
@@ -63,7 +65,10 @@ Definition py_is_none (a : pyval) : bool := match a with PNone => true | _ => fa
 Definition py_lt (a b : pyval) : bool := match a, b with PInt x, PInt y => (x <? y)%Z | _, _ => false end.
 Definition py_le (a b : pyval) : bool := match a, b with PInt x, PInt y => (x <=? y)%Z | _, _ => false end.
 Definition py_add (a b : pyval) : pyval :=
-  match a, b with PInt x, PInt y => PInt (x + y) | PBytes x, PBytes y => PBytes (x ++ y) | _, _ => PNone end.
+  match a, b with
+  | PInt x, PInt y => PInt (x + y) | PBytes x, PBytes y => PBytes (x ++ y) | PStr x, PStr y => PStr (x ++ y)
+  | _, _ => PNone
+  end.
 Definition py_sub (a b : pyval) : pyval := match a, b with PInt x, PInt y => PInt (x - y) | _, _ => PNone end.
 (* `<milliseconds> / 1000.0`: seconds; times are kept in milliseconds, so the number stays *)
 Definition py_ms_to_s (a : pyval) : pyval := match a with PInt x => PInt x | _ => PNone end.
@@ -134,6 +139,22 @@ Definition py_struct_unpack (fmt : string) (data : pyval) : res pyval :=
   | Some (sg, w), PBytes b => match unpack_int sg w b with Ok z => Ok (PTuple [PInt z]) | Raise e => Raise e end
   | _, _ => Raise StructError
   end.
+
+(* struct with a format computed at run time ('<' + self.fmt), struct.calcsize *)
+Definition py_struct_pack_v (fmt v : pyval) : res pyval := match fmt with PStr s => py_struct_pack s v | _ => Raise TypeError end.
+Definition py_struct_unpack_v (fmt d : pyval) : res pyval := match fmt with PStr s => py_struct_unpack s d | _ => Raise TypeError end.
+Definition py_calcsize (fmt : pyval) : res pyval :=
+  match fmt with
+  | PStr s => match fmt_of s with Some (_, w) => Ok (PInt (Z.of_nat w)) | None => Raise StructError end
+  | _ => Raise TypeError
+  end.
+(* text: str.encode() / bytes.decode() (UTF-8, strict) / str.rstrip('\x00'); bytes(n) *)
+Definition py_encode (v : pyval) : res pyval :=
+  match v with PText b => Ok (PBytes b) | _ => Raise AttributeError end.
+Definition py_decode (v : pyval) : res pyval :=
+  match v with PBytes b => if utf8_valid b then Ok (PText b) else Raise UnicodeError | _ => Raise AttributeError end.
+Definition py_rstrip0 (v : pyval) : pyval := match v with PText b => PText (rstrip0 b) | x => x end.
+Definition py_zero_bytes (n : pyval) : pyval := match n with PInt z => PBytes (zeros (Z.to_nat z)) | _ => PNone end.
 
 (* the static helpers of CfgKeyData and the key database (their own Tie B: BridgeCfgKeys.v, reflected tables) *)
 Definition py_build_header (g i b : pyval) : res pyval :=
